@@ -60,6 +60,14 @@ def pool():
              frozenset([1, 2]), {1, 2}, type('Label', (str,), {})('AbC'), Colour.GREEN, type('Money', (float,), {})(2.5), -0.0, collections.deque([1, 2]), iter([1, 2, 3]),
              type('Num', (object,), {'__float__': lambda self: 2.5, '__int__': lambda self: 2, '__index__': lambda self: 2})(), type('Empty', (object,), {}), len, Ellipsis,
              collections.OrderedDict(a=1), memoryview(b'xy'), (), ((1, 2), (3, 4)), [(1, 2), [3, (4,)]], 'x' * 300]
+    # values that lie about, or refuse to tell, what they are (proxies, mocks, lazy objects): isinstance() consults __class__
+    import weakref
+
+    def boom(self, *a, **k):
+        raise ValueError('this object does not tell')
+    vals += [type('NoClass', (object,), {'__class__': property(boom)})(), type('ClaimsText', (object,), {'__class__': property(lambda self: str)})(),
+             type('ClaimsError', (object,), {'__class__': property(lambda self: XL)})(), weakref.proxy(e['#N/A']), type('TextNoHash', (str,), {'__hash__': boom})('#N/A'),
+             type('TextNoEq', (str,), {'__eq__': boom, '__hash__': lambda self: 1})('abc'), type('NoDict', (object,), {'__getattribute__': boom})()]
     return vals
 
 
@@ -129,7 +137,8 @@ FAULTS = ['ValueError', 'KeyError', 'ZeroDivisionError', 'RecursionError', 'Memo
           'XL#NULL!', 'XL#DIV/0!', 'XL#VALUE!', 'XL#REF!', 'XL#NAME?', 'XL#NUM!', 'XL#N/A', 'XL#GETTING_DATA', 'XL#ERROR!',
           'ownXL:#CIRCULAR!', 'ownXL:', 'ownXL:two-args', 'ownXL:no-args', 'ownXL:#N/A', 'ownXL:badstr', 'return-ownXL:#CIRCULAR!', 'return-ownXL:two-args',
           'chain:self-cause', 'chain:two-cycle', 'chain:ownXL-from-itself', 'chain:long', 'chain:context-cycle',
-          'odd:unhashable', 'odd:frozen', 'odd:setattr-raises', 'odd:eq-raises', 'odd:slots', 'odd:unhashable-ownXL', 'odd:hash-raises', 'odd:getattr-raises', 'odd:bool-raises']
+          'odd:unhashable', 'odd:frozen', 'odd:setattr-raises', 'odd:eq-raises', 'odd:slots', 'odd:unhashable-ownXL', 'odd:hash-raises', 'odd:getattr-raises', 'odd:bool-raises',
+          'odd:text-unhashable', 'odd:text-eq-raises', 'odd:class-raises', 'odd:text-is-a-code-but-unhashable']
 
 
 class Fault(BaseException):
@@ -150,6 +159,8 @@ class Check(BaseCheck):
                    'time spent inside host callbacks is not counted')
     SHARD_TIMEOUT = {'quick': 900, 'thorough': 7200}
 
+    NO_AMBIENT = ('repotests', 'scaling', 'content_scaling', 'size_scaling')      # a subprocess of its own; CPU-time measurements
+
     def plan(self, tier, seed):
         q = tier == 'quick'
         specs = [{'campaign': 'sentinels'}, {'campaign': 'repotests'}, {'campaign': 'hostile_env'}]
@@ -162,6 +173,10 @@ class Check(BaseCheck):
             specs.append({'campaign': 'arities', 'seed': seed, 'names': names[i::k], 'sampled': 40 if q else 3000, 'core_only': q})
         for i in range(8):
             specs.append({'campaign': 'scaling', 'i': i, 'k': 8, 'reps': [4, 8, 12, 16, 20, 22, 24, 26] if q else [4, 8, 12, 16, 18, 20, 21, 22, 23, 24, 25, 26, 28]})
+        specs.append({'campaign': 'passthrough'})
+        for i in range(8):
+            specs.append({'campaign': 'size_scaling', 'names': names[i::8], 'layouts': ['column', 'row'] if q else ['column', 'row', 'grid', 'tuples', 'text-column'],
+                          'sizes': [2048, 8192, 16384] if q else [1024, 2048, 4096, 8192, 16384, 32768]})
         for i in range(8):
             specs.append({'campaign': 'content_scaling', 'names': names[i::8], 'lengths': [40, 100] if q else [30, 60, 120, 250], 'reps': [3, 6, 8, 10, 12, 16, 20] if q else [2, 4, 6, 7, 8, 9, 10, 11, 12, 14, 16, 20, 24, 30]})
         for i in range(8 if q else 16):
@@ -409,6 +424,68 @@ class Check(BaseCheck):
                             break
         rec.sample({'formula': 'COUNTIF(v_l,v_p)', 'v_p': '*a' * 8 + 'b', 'v_l': ['a' * 40, '...'], 'what': 'pattern with k wildcards against an almost-matching text; thread CPU time measured'})
 
+    # ------------------------------------------------------------------ 1d. ... nor faster than linearly with the SIZE of a host value
+    def c_size_scaling(self, spec, rec):
+        """Every supported function on a host list of n cells (a column handed over as n one-cell rows, a flat row, a square grid),
+        n doubling.  A spreadsheet column has up to 2^20 rows: work that grows with the square of n is not 'bounded time' for a host
+        that hands over real ranges.  Thread CPU time again; verdict only when a call costs more than a CPU second for at most 32768
+        cells AND cost more than three times the call on half the cells (linear work doubles, quadratic work quadruples)."""
+        import time
+        p = self.mkparser()
+        layouts = {'column': lambda n: [[1] for _ in range(n)], 'row': lambda n: [1] * n, 'grid': lambda n: [[1] * int(n ** 0.5) for _ in range(int(n ** 0.5))],
+                   'tuples': lambda n: tuple((1,) for _ in range(n)), 'text-column': lambda n: [['ab'] for _ in range(n)]}
+        shapes = ['%s(v_big)', '%s(v_big,1)', '%s(1,v_big)', '%s(v_big,v_big)', '%s(v_big,">0")', '%s(",",TRUE,v_big)', 'v_big+1', '%s(A1:B2,v_big)']
+        for fn in spec['names']:
+            for lay in spec['layouts']:
+                for shape in shapes:
+                    if '%s' not in shape and fn != spec['names'][0]:
+                        continue
+                    f = shape % fn if '%s' in shape else shape
+                    prev = None
+                    for n in spec['sizes']:
+                        p.set_variable('v_big', layouts[lay](n))
+                        t0 = time.thread_time()
+                        got = self.guarded(p, f, 8 + n, {'kind': 'size-scaling', 'function': fn, 'layout': lay, 'cells': n})
+                        dt = time.thread_time() - t0
+                        rec.count('size_scaling_inputs')
+                        rec.cov('size_scaling_layouts', lay)
+                        if got is not None:
+                            rec.nt((f, lay, n))
+                        if dt > rec.series.get('max_cpu_seconds_32768_cells', 0):
+                            rec.series['max_cpu_seconds_32768_cells'] = round(dt, 4)
+                        if got is None:
+                            break
+                        if dt > self.CPU_LIMIT and prev is not None and dt > 3 * prev[1]:
+                            rec.violation('C01/cpu-time-grows-faster-than-the-size-of-a-host-value:' + lay, formula=f, cells=n, cpu_seconds=round(dt, 3), half_the_cells=prev, layout=lay)
+                            break
+                        if dt > 8 * self.CPU_LIMIT:
+                            break
+                        prev = (n, round(dt, 4))
+        p.set_variable('v_big', None)
+        rec.sample({'formula': 'SUM(v_big)', 'v_big': 'n one-cell rows, n = 2048 .. 32768', 'what': 'thread CPU time against the number of cells of a host list'})
+
+    # ------------------------------------------------------------------ 2'. whatever the host hands over comes back as a well-formed record
+    def c_passthrough(self, spec, rec):
+        """every pool value as the VALUE of the formula: through a variable, a cell, a range, a custom function, parentheses and the
+        functions that return an argument unchanged - the record is judged by the contract on parse() as everywhere else"""
+        vals = pool()
+        for debug in (False, True):
+            p = self.mkparser(debug)
+            cur = [None]
+            p.set_function('GIVE', lambda *a: cur[0])
+            p.on('callCellValue', lambda c, s: s(cur[0]) if c.label.upper() == 'Q77' else None)
+            p.on('callVariable', lambda n, s: s(cur[0]) if n == 'late_bound' else None)
+            for i, v in enumerate(vals):
+                cur[0] = v
+                p.set_variable('v_a', v)
+                for f in ('v_a', '(v_a)', 'IF(TRUE,v_a,1)', 'IF(FALSE,1,v_a)', 'CHOOSE(1,v_a)', 'GIVE()', 'Q77', 'late_bound', 'IFERROR(v_a,1)', 'INDEX(v_a,0,0)', 'IFS(TRUE,v_a)', 'SWITCH(1,1,v_a)',
+                          '{v_a}', 'IFNA(v_a,1)', 'v_a&""', '-v_a', 'v_a=v_a'):
+                    got = self.guarded(p, f, 8, {'kind': 'passthrough', 'value': i, 'type': type(v).__name__, 'debug': debug})
+                    if got is not None:
+                        rec.nt((f, i, debug))
+                    rec.cov('passthrough_value_types', type(v).__name__)
+        rec.sample({'formula': 'IF(TRUE,v_a,1)', 'v_a': 'every pool value in turn', 'what': 'host values as the value of the formula'})
+
     # ------------------------------------------------------------------ 2. functions x arities
     def c_arities(self, spec, rec):
         rnd = self.rng(spec)
@@ -482,6 +559,15 @@ class Check(BaseCheck):
                 obj = type('NoHash', (Exception,), {'__hash__': boom})('x')
             elif what == 'getattr-raises':
                 obj = type('NoGet', (Exception,), {'__getattr__': boom})('x')
+            elif what in ('text-unhashable', 'text-is-a-code-but-unhashable'):
+                # str(exception) may hand back an instance of a str SUBCLASS as it is: its text is then not a plain dictionary key
+                txt = type('TextNoHash', (str,), {'__hash__': boom})('#N/A' if 'code' in what else 'no')
+                obj = type('OddText', (Exception,), {'__str__': lambda self, _t=txt: _t})('x')
+            elif what == 'text-eq-raises':
+                txt = type('TextNoEq', (str,), {'__eq__': boom, '__hash__': lambda self: hash('#N/A')})('#N/A')
+                obj = type('OddText', (Exception,), {'__str__': lambda self, _t=txt: _t})('x')
+            elif what == 'class-raises':
+                obj = type('NoClassErr', (Exception,), {'__class__': property(boom)})('x')
             else:
                 obj = type('NoBool', (Exception,), {'__bool__': boom, '__len__': boom})('x')
             return ('raise', obj)
